@@ -428,7 +428,7 @@ def masked_mlp(ctx):
             ctx.oblige(f"C09/masked_autoregressive_mlp[{tag}]/struct/trainable_leaves_found", nleaves >= depth + 1, [], props, kind="struct", fn=f"{MQ}.masked_autoregressive_mlp")
 
 
-@family("masks/block_autoregressive_linear", ["C09", "C02", "C04"])
+@family("masks/block_autoregressive_linear", ["C09", "C02", "C04", "C18"])
 def bnaf_linear(ctx):
     """after ANY update of the raw weights the unwrapped BNAF weight is zero above the block diagonal and strictly positive on it"""
     it = ctx.interp
@@ -439,7 +439,7 @@ def bnaf_linear(ctx):
     winstall(it)
     env11(it)
     mask_lib(it)
-    props = ["C09", "C02", "C04"]
+    props = ["C09", "C02", "C04", "C18"]  # C18: log_jacobian_fn takes jnp.log of the diagonal blocks, whose entries are > 0 for all raw weights
     BQ = "flowjax.bijections.block_autoregressive_network"
     fnq = f"{BQ}.block_autoregressive_linear"
     RB, CB = z3.Function("row_block", I, I), z3.Function("col_block", I, I)
